@@ -19,7 +19,7 @@ var rawAlphabet = []string{"0", "1", "9", ".", "-", "+", "~", ":", "a", "_", " "
 
 // globalTokens is the part of Τ shared by all ecosystems.
 var globalTokens = []string{
-	"0", "1", "2", "9", "10", "01", BIG,
+	"0", "1", "2", "9", "10", "01", "00", "000", BIG,
 	".", "-", "+", "~", "^", "_", "!", ":",
 	"a", "alpha", "beta", "rc", "pre", "post", "dev", "sp", "ga", "final", "snapshot", "p", "cvs", "-r1", "v", " ",
 }
@@ -29,7 +29,7 @@ type group struct {
 	id     string   // comparator id used in cause keys
 	names  []string // ecosystem names accepted by semantic.Parse
 	extra  []string // ecosystem specific tokens added to globalTokens
-	core   []string // reduced token alphabet for the 3-token part of S1 (thorough)
+	core   []string // ecosystem specific part of the reduced token alphabet for the 3-token part of S1: coreCommon + core[:3] in quick, coreCommon + core + coreTail in thorough
 	gen    func(th bool) []string
 	gen2   func(th bool) []string // optional second family of valid versions, checked separately
 	ref    func(a, b string) (int, bool)
@@ -122,6 +122,7 @@ func genNuGet(th bool) []string {
 	}
 	out := cross(cores, pres)
 	out = append(out, cross([]string{"1.0.0", "1.0.0.1"}, []string{"", "-alpha", "-RC.2"}, []string{"+build", "+001"})...)
+	out = append(out, zeroForms([]string{"1", "1.2"}, []string{"", "-alpha", "-rc.1"}, ".")...)
 	out = append(out, "1.01", "1.01.0", "01.1.0", "1.0.01-alpha", BIG+".0", "1."+BIG, "1.0.0."+BIG, "1.0.0-"+BIG, "1."+BIG2)
 	return out
 }
@@ -137,6 +138,7 @@ func genDebian(th bool) []string {
 		revs = append(revs, "-10", "-1.1")
 	}
 	out := cross(epochs, nums, suffix, revs)
+	out = append(out, zeroForms([]string{"1", "1.2", "1:1"}, []string{"", "~rc1", "-1", "-00", "a"}, ".")...)
 	out = append(out, "01", "1.01", "1.0-01", "1.0-1-1", "1:1.0-1-1", BIG, "1."+BIG, "1-"+BIG, BIG2, "1.0.a", "1.0+", "1.0~~a", "1.0-2", "1.0-0-1", "1.0-1-2")
 	return out
 }
@@ -154,6 +156,7 @@ func genMaven(th bool) []string {
 		q = append(q, ".RELEASE", "-rc-10", "-beta.1", "_alpha", "-alpha-SNAPSHOT", "-1-SNAPSHOT", ".Final-1", "-rc2")
 	}
 	out := cross(nums, q)
+	out = append(out, zeroForms([]string{"1", "1.2"}, []string{"", "-alpha", "-alpha-00", "-sp", "-00", "-SNAPSHOT"}, ".")...)
 	out = append(out, "01", "1.01", "1.0-alpha-01", BIG, "1."+BIG, "1.0-alpha-"+BIG, "1-"+BIG, BIG2)
 	// all-zero multi-digit components in every position
 	out = append(out, "1.00.1", "1.00.5", "1.000.1", "00.1", "1.0.00", "3.00.2", "1.00", "1.00-alpha-1", "1.00.1-rc-1", "2.00.0")
@@ -187,6 +190,7 @@ func genPackagist(th bool) []string {
 	}
 	out := cross(nums, st)
 	out = append(out, prefixAll("v", cross([]string{"1.0", "1.0.0", "1.0.1"}, st))...)
+	out = append(out, zeroForms([]string{"1.2", "1.2.3"}, []string{"", "-beta1", "-beta00", "-p1", "-dev"}, ".")...)
 	out = append(out, "1."+BIG, "1.0."+BIG, "1."+BIG+".0", BIG+".0", "1.0.0-alpha"+BIG, "1."+BIG2, "1.01", "1.0.0-beta01")
 	return out
 }
@@ -205,6 +209,7 @@ func genPyPI(th bool) []string {
 	el := cross([]string{"", "1!"}, []string{"1.0"}, pre, post, dev, []string{"", "+abc", "+1", "+abc.1", "+abc.def"})
 	out = append(out, el...)
 	// alternative (non-normalised but PEP 440 valid) spellings
+	out = append(out, zeroForms([]string{"1", "1.2", "1!1"}, []string{"", "a00", "rc1", ".post00", ".dev00", "+00", "+abc.00"}, ".")...)
 	out = append(out, "1.0alpha1", "1.0-1", "1.0.RC1", "1.0c1", "v1.0", "1.0-rev1", "1.0_dev1", "1.0.post", "1.0.dev", "1.0-ALPHA", "1.0+ABC", "1.0pre1", "1.0-r1", " 1.0 ", "01.0", "1.01",
 		BIG, "1."+BIG, BIG+"!1", "1.0a"+BIG, "1.0.post"+BIG, "1.0.dev"+BIG, "1.0+"+BIG, "1."+BIG2)
 	return out
@@ -221,6 +226,7 @@ func genRedHat(th bool) []string {
 		rels = append(rels, "-2.el8_1", "-1.el8~1")
 	}
 	out := cross(epochs, nums, suffix, rels)
+	out = append(out, zeroForms([]string{"1", "1.2", "1:1"}, []string{"", "~rc1", "^00", "-1", "-00", "a"}, ".")...)
 	out = append(out, "1", "01.0", "1.01", "1.0-01", BIG, "1."+BIG, "1.0-"+BIG, "1."+BIG2, "1.0_1", "1.0+1")
 	return out
 }
@@ -233,6 +239,7 @@ func genRubyGems(th bool) []string {
 		pre = append(pre, ".a.0", ".rc2", ".A")
 	}
 	out := cross(nums, pre)
+	out = append(out, zeroForms([]string{"1", "1.2"}, []string{"", ".rc1", ".rc00", ".a"}, ".")...)
 	out = append(out, "01", "1.01", "1.0.rc01", BIG, "1."+BIG, "1.0.rc"+BIG, "1."+BIG2, "1.0.0.0.1")
 	return out
 }
@@ -248,6 +255,8 @@ func genAlpine(th bool) []string {
 	}
 	out := cross(nums, suf, rev)
 	out = append(out, cross([]string{"1.0", "1.1", "1"}, []string{"a", "b"}, []string{"", "_rc1", "_p1"}, []string{"", "-r1"})...)
+	out = append(out, zeroForms([]string{"1", "1.2", "00"}, []string{"", "_rc1", "-r1", "a", "_cvs0", "_cvs", "_cvs1"}, ".")...)
+	out = append(out, "1.0_cvs0", "1.0_cvs", "1.0_svn0", "1.0_p0", "1.0_rc0", "1.0_alpha0")
 	out = append(out, "1.0~abc", "1.0_p1~abc-r1", "1.0a~0f", "1.0~abc-r1", BIG, "1."+BIG, "1.0_p"+BIG, "1.0-r"+BIG, "1."+BIG2)
 	return out
 }
@@ -260,6 +269,8 @@ func genCRAN(th bool) []string {
 		cross(nums, seps, nums, seps, nums),
 		cross([]string{"1"}, []string{"."}, n01, seps, nums, seps, nums),
 	)
+	out = append(out, zeroForms([]string{"1.2", "00.1"}, []string{""}, ".")...)
+	out = append(out, "1.00", "1-00", "1.000", "1.2-00")
 	out = append(out, "1.01", "01.1", "1.0-01", BIG+".0", "1."+BIG, "1.0-"+BIG, "1."+BIG2)
 	return out
 }
@@ -267,37 +278,59 @@ func genCRAN(th bool) []string {
 var groups = []*group{
 	{id: "Alpine", names: []string{"Alpine"}, gen: genAlpine, ref: refAlpine, minRef: 40,
 		extra: []string{"_alpha", "_p", "-r", "~abc", "svn", "git", "hg", "b"},
-		core:  []string{"0", "1", "10", "01", ".", "-", "_", "a", "_alpha", "_p", "-r", "~abc", "r", BIG}},
+		core:  []string{"_", "a", "_alpha", "_p", "-r", "~abc", "r"}},
 	{id: "CRAN", names: []string{"CRAN"}, gen: genCRAN, ref: refCRAN, minRef: 40,
 		extra: []string{"A", "e"},
-		core:  []string{"0", "1", "10", "01", ".", "-", "+", "a", ":", "_", " ", BIG}},
+		core:  []string{"+", "a", ":", "_", " "}},
 	{id: "Debian", names: []string{"Debian", "Ubuntu"}, gen: genDebian, ref: refDebian, minRef: 40,
 		extra: []string{"ubuntu", "+dfsg", "~~"},
-		core:  []string{"0", "1", "10", "01", ".", "-", ":", "~", "+", "a", "ubuntu", " ", BIG}},
+		core:  []string{":", "~", "+", "a", "ubuntu", " "}},
 	{id: "Maven", names: []string{"Maven"}, gen: genMaven, gen2: genMavenDot, ref: refMaven, minRef: 40,
 		extra: []string{"milestone", "cr", "m", "b", "release", "SNAPSHOT", "foo"},
-		core:  []string{"0", "1", "10", "01", ".", "-", "alpha", "a", "rc", "sp", "ga", "snapshot", "foo", "_"}},
+		core:  []string{"alpha", "a", "rc", "sp", "ga", "snapshot", "foo", "_"}},
 	{id: "NuGet", names: []string{"NuGet"}, gen: genNuGet, ref: refNuGet, minRef: 40,
 		extra: []string{"RC", "Alpha", "x"},
-		core:  []string{"0", "1", "10", "01", ".", "-", "+", "alpha", "rc", "RC", "a", "v", "~", BIG}},
+		core:  []string{"+", "alpha", "rc", "RC", "a", "v", "~"}},
 	{id: "Packagist", names: []string{"Packagist"}, gen: genPackagist, ref: refPackagist, minRef: 40,
 		extra: []string{"RC", "pl", "patch", "#", "V", "b"},
-		core:  []string{"0", "1", "10", "01", ".", "-", "v", "dev", "a", "beta", "RC", "p", "#", "_", "+"}},
+		core:  []string{"v", "dev", "a", "beta", "RC", "p", "#", "_", "+"}},
 	{id: "PyPI", names: []string{"PyPI"}, gen: genPyPI, ref: refPyPI, minRef: 40,
 		extra: []string{"c", "preview", "rev", "r", "b", "POST"},
-		core:  []string{"0", "1", "10", "01", ".", "-", "!", "a", "rc", "post", "dev", "+", "_", "v"}},
+		core:  []string{"!", "a", "rc", "post", "dev", "+", "_", "v"}},
 	{id: "RedHat", names: []string{"Red Hat"}, gen: genRedHat, ref: refRedHat, minRef: 40,
 		extra: []string{"el8", "A"},
-		core:  []string{"0", "1", "10", "01", ".", "-", ":", "~", "^", "a", "_", "el8", BIG}},
+		core:  []string{":", "~", "^", "a", "_", "el8"}},
 	{id: "RubyGems", names: []string{"RubyGems"}, gen: genRubyGems, ref: refRubyGems, minRef: 40,
 		extra: []string{"A", "b"},
-		core:  []string{"0", "1", "10", "01", ".", "-", "a", "b", "pre", "A", "_", BIG}},
+		core:  []string{"a", "b", "pre", "A", "_"}},
 	{id: "semver", names: []string{"crates.io", "npm", "Go", "Hex", "Pub", "ConanCenter"}, gen: genSemver, ref: refSemver, minRef: 40,
 		extra: []string{"A", "x"},
-		core:  []string{"0", "1", "10", "01", ".", "-", "+", "alpha", "rc", "a", "A", "v", "~", BIG}},
+		core:  []string{"+", "alpha", "rc", "a", "A", "v", "~"}},
 }
 
 func (g *group) tokens() []string { return uniq(cat(globalTokens, g.extra)) }
+
+// coreCommon/coreTail frame the per-ecosystem core tokens. "00" is there so that an all-zero
+// multi-digit component meets an absent or a "0" component ("1.00" vs "1" vs "1.0") in BOTH tiers.
+var (
+	coreCommon = []string{"0", "1", "00", "01", ".", "-"}
+	coreTail   = []string{"10", "000", BIG}
+)
+
+// coreTokens is the alphabet of the 3-token part of S1.
+func (g *group) coreTokens(th bool) []string {
+	if th {
+		return uniq(cat(coreCommon, g.core, coreTail))
+	}
+	return uniq(cat(coreCommon, g.core[:3]))
+}
+
+// zeroForms: versions whose last numeric component is all zeros of length 1..3 (and the version
+// without it), optionally followed by a suffix: an absent component, "0", "00" and "000" must be
+// ordered consistently with each other.
+func zeroForms(bases, suffixes []string, sep string) []string {
+	return cross(bases, []string{"", sep + "0", sep + "00", sep + "000", sep + "0" + sep + "00"}, suffixes)
+}
 
 // kStrings enumerates strings of up to maxLen letters over an alphabet, shortest first,
 // addressed by index so that work can be sharded without materialising the space.
